@@ -5,3 +5,4 @@ import Drv.Broker
 import Drv.BaseConn
 import Drv.Stream
 import Drv.Service
+import Drv.Client
